@@ -342,7 +342,7 @@ class ColorValue(Value):
                            )
         noalp = Sequence(Prod(name='FUNCTION',
                               match=lambda t, v: t == types.FUNCTION and
-                              v.lower() in ('rgb(', 'hsl('),
+                              normalize(v) in ('rgb(', 'hsl('),
                               toSeq=lambda t, tokens: (t[0], normalize(t[1]))),
                          component,
                          Sequence(PreDef.comma(optional=True),
@@ -353,7 +353,7 @@ class ColorValue(Value):
                          )
         witha = Sequence(Prod(name='FUNCTION',
                               match=lambda t, v: t == types.FUNCTION and
-                              v.lower() in ('rgba(', 'hsla('),
+                              normalize(v) in ('rgba(', 'hsla('),
                               toSeq=lambda t, tokens: (t[0],
                                                        normalize(t[1]))
                               ),
